@@ -586,7 +586,12 @@ func sessionChargingReservation(
 			ue.UnitCost[rg] = getUnitCost(ue, rg, sur)
 
 			usedQuota := uint64(totalUsedUnit * ue.UnitCost[rg])
-			requestedQuota = uint64(uint32(unitUsage.RequestedUnit.TotalVolume) * ue.UnitCost[rg])
+			// requestedUnit is optional: without it nothing is requested
+			var requestedVolume uint32
+			if unitUsage.RequestedUnit != nil {
+				requestedVolume = uint32(unitUsage.RequestedUnit.TotalVolume)
+			}
+			requestedQuota = uint64(requestedVolume * ue.UnitCost[rg])
 			ue.ReservedQuota[rg] -= int64(usedQuota)
 			// reserve whatever the reservation lacks to cover the requested quota
 			NeedReserveQuota := ue.ReservedQuota[rg] < int64(requestedQuota)
@@ -646,7 +651,7 @@ func sessionChargingReservation(
 
 			ue.UnitCost[rg] = getUnitCost(ue, rg, sur)
 
-			grantedUnit := min(uint32(serviceUsageRsp.ServiceRating.AllowedUnits), uint32(unitUsage.RequestedUnit.TotalVolume))
+			grantedUnit := min(uint32(serviceUsageRsp.ServiceRating.AllowedUnits), requestedVolume)
 
 			if ue.RatingType[rg] == charging_datatype.REQ_SUBTYPE_RESERVE {
 				unitInformation.Triggers = append(unitInformation.Triggers,
